@@ -445,8 +445,28 @@ func c04Ignore(r *Run, c *c04Ctx) {
 			l, ok := e.Tuple.(*ssa.Lookup)
 			return ok && a.isNameMap(l.X) && cl.nodeNameOfPod(l.Index)
 		})
-		if !unmapped {
+		mapped := valueFactC(fs, true, func(v ssa.Value) bool {
+			e, ok := v.(*ssa.Extract)
+			if !ok || e.Index != 1 {
+				return false
+			}
+			l, ok := e.Tuple.(*ssa.Lookup)
+			return ok && a.isNameMap(l.X) && cl.nodeNameOfPod(l.Index)
+		})
+		if mapped {
 			continue // clean-up of a pod of a mapped node: the node is not ignored (no entry otherwise)
+		}
+		if !unmapped {
+			// neither known to be mapped nor unmapped (e.g. decided before the per-node map is consulted):
+			// the pod may sit on an ignored node, so the not-ignored fact is needed here as well
+			n++
+			okI := valueFactC(fs, false, isIgnored)
+			if !okI {
+				c.r2AllOK = false
+			}
+			r.Check("C04.R2", "clean-up of a pod before its node is looked up", r.Prog.Pos(instrPos(ap)), shortFunc(m),
+				"a pod is put on the clean-up list only when its node has a per-node entry (so is not ignored) or is known not to be in the ignore list — pods on canary nodes are left to the canary replica set", okI, "must-facts: "+descFactsC(fs))
+			continue
 		}
 		n++
 		okI := valueFactC(fs, false, isIgnored)
@@ -1071,6 +1091,42 @@ func c04ActivationOrigin(r *Run, c *c04Ctx) {
 		}
 		r.Check("C04.R9", "label clean-up window opens at its origin", pos, shortFunc(fn),
 			"the elapsed-time guard of the canary-label clean-up is an upper bound (elapsed < period): the clean-up runs in the syncs that follow the activation, not only after the period has passed", upper, "must-facts: "+descFactsC(ff.At(ci.Block())))
+		// besides the window (and error / loop-bound tests), nothing else may gate the clean-up
+		var extra []string
+		for _, f := range ff.At(ci.Block()) {
+			if cf, okc := decodeCmpC(f); okc {
+				isErr := func(v ssa.Value) bool { return v.Type().String() == "error" }
+				if cf.Op == "==" && cf.Pol && ((isNilConst(cf.Y) && isErr(cf.X)) || (isNilConst(cf.X) && isErr(cf.Y))) {
+					continue // an earlier step succeeded
+				}
+				if cf.Op == "<" {
+					timeCmp := false
+					for _, side := range []ssa.Value{cf.X, cf.Y} {
+						if call, isCall := unwrap(side).(*ssa.Call); isCall {
+							n := calleeName(&call.Call)
+							if n == "time.Since" || n == "(time.Time).Sub" {
+								timeCmp = true
+							}
+						}
+					}
+					if timeCmp || builtinCallC(unwrap(cf.Y), "len") != nil || builtinCallC(unwrap(cf.X), "len") != nil {
+						continue // the window itself, or a loop bound
+					}
+				}
+				if cf.Op == "==" && !cf.Pol && (isNilConst(cf.X) || isNilConst(cf.Y)) && !isErr(cf.X) && !isErr(cf.Y) {
+					continue // a nil guard of a pointer
+				}
+			}
+			if ex, isE := f.V.(*ssa.Extract); isE {
+				if _, isNext := ex.Tuple.(*ssa.Next); isNext {
+					continue // an earlier range loop ran to its end
+				}
+			}
+			extra = append(extra, descFactC(f))
+		}
+		sort.Strings(extra)
+		r.Check("C04.R9", "label clean-up has no other gate", pos, shortFunc(fn),
+			"inside its time window the canary-label clean-up runs on every sync of the active replica set: it is gated only by the window, by the success of earlier steps and by loop bounds (not by pause/freeze or other state)", len(extra) == 0, "extra guard(s): "+strings.Join(extra, " ∧ "))
 		okOrigin := r.Prog.dependsOnIP(origin, isActiveRead)
 		r.Check("C04.R9", "label clean-up window origin", pos, shortFunc(fn),
 			"the elapsed time that limits the canary-label clean-up is measured from the Active condition of the replica set (the moment it became active)", okOrigin, "origin "+descValueC(origin))
